@@ -472,7 +472,13 @@ def _same_time(a, b):
 
 
 def check_time_meta(case):
+    root_ref = {}
+
     def visit(child, model, root_arr, k, step):
+        if not root_ref:
+            root0, _ = _build(case["img"], case["cls"])
+            root_ref["reference_date"] = root0.reference_date
+            root_ref["times_from_dates"] = case["img"].get("time") == "date"
         t = _tags(case, model, step)
         where = f"step {k} ({step['op']})"
         if bool(child.series) != model.series:
@@ -486,6 +492,20 @@ def check_time_meta(case):
         if not _same_time(child.date, want_date):
             raise Violation("date", f"{where}: date {child.date!r}, the root's at indices "
                             f"{model.t} is {want_date!r}", t)
+        # relative time, date and reference date stay mutually consistent: when the dates are known
+        # the relative times are date - reference_date (this is how the library itself re-derives
+        # them, e.g. when sub-images are stacked again), and extraction must not move the reference
+        if child.reference_date != root_ref["reference_date"]:
+            raise Violation("reference-date", f"{where}: reference_date {child.reference_date!r}, the root's is "
+                            f"{root_ref['reference_date']!r}", t)
+        dates = child.date if isinstance(child.date, list) else [child.date]
+        times = child.time if isinstance(child.time, list) else [child.time]
+        if root_ref["times_from_dates"] and child.reference_date is not None and all(d is not None for d in dates) \
+                and all(x is not None for x in times):
+            derived = [(d - child.reference_date).total_seconds() for d in dates]
+            if [float(x) for x in times] != derived:
+                raise Violation("time-date-inconsistent", f"{where}: time {times} but date - reference_date "
+                                f"gives {derived}", t)
         nt = len(model.t) if model.series else 1
         if int(child.time_num) != nt or int(child.time_dim) != (1 if model.series else 0):
             raise Violation("time-num", f"{where}: time_num={child.time_num} time_dim="
